@@ -2,6 +2,7 @@ package compiler
 
 import (
 	"fmt"
+	"sort"
 
 	"github.com/grafana/cog/internal/ast"
 )
@@ -26,8 +27,20 @@ func (pass *FieldsSetDefault) processObject(_ *Visitor, _ *ast.Schema, object as
 		return object, nil
 	}
 
+	// references are applied in a stable order, to ensure a consistent result
+	// when several of them designate the same field.
+	fieldRefs := make([]FieldReference, 0, len(pass.DefaultValues))
+	for fieldRef := range pass.DefaultValues {
+		fieldRefs = append(fieldRefs, fieldRef)
+	}
+	sort.Slice(fieldRefs, func(i, j int) bool {
+		return fmt.Sprintf("%s.%s.%s", fieldRefs[i].Package, fieldRefs[i].Object, fieldRefs[i].Field) <
+			fmt.Sprintf("%s.%s.%s", fieldRefs[j].Package, fieldRefs[j].Object, fieldRefs[j].Field)
+	})
+
 	for i, field := range object.Type.AsStruct().Fields {
-		for fieldRef, value := range pass.DefaultValues {
+		for _, fieldRef := range fieldRefs {
+			value := pass.DefaultValues[fieldRef]
 			if !fieldRef.Matches(object, field) {
 				continue
 			}
